@@ -346,9 +346,9 @@ theorem snapPlan_plain (cf : Cfg) (d : Durable) (v : Vol) (fpos : Nat × Nat) (f
         · subst hs; exact ⟨rfl, rfl⟩
         · subst hs; exact ⟨rfl, hv1⟩
 
-theorem isVol2_term (v : Vol) (q : ISReq) : (isVol2 v q).term = if q.term > v.term then q.term else v.term := by
+theorem isVol2_term (v : Vol) (q : ISReq) : (isVol2 v q).term = if isDown v q then q.term else v.term := by
   unfold isVol2
-  by_cases hd : q.term > v.term
+  by_cases hd : isDown v q
   · simp [hd, stepDown]
   · simp [hd]
 
@@ -393,7 +393,7 @@ theorem isPlan_plain (cf : Cfg) (d : Durable) (v : Vol) (q : ISReq) : PlainPlan 
     refine ⟨isPre v q, (isTail cf d (isVol2 v q) q).1, (isVol2 v q).term, rfl, ?_, h1, fun _ => h2⟩
     rw [isVol2_term]
     unfold isPre
-    by_cases hd : q.term > v.term
+    by_cases hd : isDown v q
     · right; rw [if_pos hd, if_pos hd]; exact ⟨_, rfl, by omega, rfl⟩
     · left; rw [if_neg hd, if_neg hd]; exact ⟨rfl, rfl⟩
 
